@@ -287,13 +287,30 @@ def gen_named_case(rng, tier, direction, X, Y, lorch=False, omitted=False, chann
             "lorch": bool(lorch), "omitted": bool(omitted), "channel": channel, "int_dtype": idt, "xmin": xmin, "xmax": xmax,
             "flagform": rng.choice(["bool", "bool", "npbool", "npbool", "int"]) if (lorch or omitted) else "bool",
             "callform": "kw" if (dy is not None and rng.random() < 0.35) else "pos",
+            "minimal_kw": rng.random() < 0.4,
             "desc": {"method": "%s_to_%s" % (names_in[X], names_out[Y]), "n": n, "m": m, "grid": gk, "data": dk, "window": wk,
                      "int_arrays": "".join("1" if t else "0" for t in idt),
                      "out": ok, "dy": uk, "lorch": bool(lorch), "omitted": bool(omitted), "zero_on_grid": 0.0 in xin}}
 
 
+def named_needed(case):
+    """the material constants a named transform really uses"""
+    rk, gk = (L.RN[case["X"]], L.GN[case["Y"]]) if case["dir"] == 0 else (L.RN[case["Y"]], L.GN[case["X"]])
+    need = set()
+    if gk in ("g", "GK"):
+        need.add("rho")
+    if rk in ("FK", "DCS") or gk == "GK":
+        need.add("<b_coh>^2")
+    if rk == "DCS":
+        need.add("<b_tot^2>")
+    return need
+
+
 def named_kwargs(case, **over):
     kw = L.kwargs_of(case["mat"])
+    if case.get("minimal_kw"):      # a caller need not supply constants the transform does not use
+        need = named_needed(case)
+        kw = {k: v for k, v in kw.items() if k in need}
     lorch = over.get("lorch", case["lorch"])
     omitted = over.get("omitted", case["omitted"])
     form = case.get("flagform", "bool")
